@@ -1,7 +1,251 @@
-//! stub
-use serde_json::Value;
-use crate::engine::Ctx;
-pub const RULE: &str = "";
-pub const ASSUMPTIONS: &[&str] = &[];
-pub fn run(_ctx: &Ctx) {}
-pub fn replay(_part: &str, _case: &Value) -> Result<(), String> { Err("not implemented".into()) }
+//! C07 — page byte layout for every size.
+
+use flipdot_core::{Page, PageId};
+use proptest::prelude::*;
+use serde::{Deserialize, Serialize};
+use serde_json::{json, Value};
+
+use crate::engine::{catch, h64, par_range, run_generated, Ctx, Stats};
+use crate::oracle::page::{bit_pos, bpc, data_len, new_bytes, total_len, REAL_SIZES};
+
+pub const RULE: &str = "sizes: every width x height in 0..=32 x 0..=34 (quick) / 0..=64 x 0..=48 (thorough), the 11 real sizes, 1x255, 255x1, 300x9, 1000x64; for each size: new-page bytes for several ids (all 256 ids on selected sizes) against the closed-form layout, every pixel set alone on a blank page must flip exactly bit y%8 of byte 4+x*ceil(h/8)+y/8 (bijection pixels<->bits), from_bytes with candidate lengths {0, total-16, total-1, total, total+1, total+16, unpadded} must succeed exactly for the padded length, expose exactly the given bytes and equal the page that produced them (also after generated edits). Non-trivial = height not a multiple of 8, or data already on a 16-byte boundary, or >= 2 bytes per column; distinct by size (and content hash for generated cases)";
+pub const ASSUMPTIONS: &[&str] = &["the closed-form layout in oracle/page.rs is a correct reading of the C07 statement"];
+
+#[derive(Serialize, Deserialize, Debug, Clone, PartialEq, Eq, Hash)]
+pub struct SizeCase {
+    pub w: u32,
+    pub h: u32,
+    pub id: u8,
+}
+
+fn nontrivial_size(w: u32, h: u32) -> bool {
+    h % 8 != 0 || data_len(w, h) % 16 == 0 || bpc(h) >= 2
+}
+
+/// new page bytes + per-pixel bit position (bijection) for one size
+pub fn check_size(c: &SizeCase, st: &mut Stats) -> Result<(), String> {
+    let (w, h) = (c.w, c.h);
+    let want = new_bytes(c.id, w, h);
+    let page = catch(|| Page::new(PageId(c.id), w, h)).map_err(|p| format!("Page::new({},{w},{h}) panicked: {p}", c.id))?;
+    st.eval();
+    if page.as_bytes() != &want[..] {
+        return Err(format!(
+            "Page::new({}, {w}, {h}) has {} bytes {:?}..., the layout prescribes {} bytes {:?}...",
+            c.id,
+            page.as_bytes().len(),
+            &page.as_bytes()[..page.as_bytes().len().min(24)],
+            want.len(),
+            &want[..want.len().min(24)]
+        ));
+    }
+    if page.id() != PageId(c.id) || page.width() != w || page.height() != h {
+        return Err(format!("accessors of Page::new({}, {w}, {h}) disagree with the inputs", c.id));
+    }
+    // every pixel alone
+    let mut seen_bits = std::collections::HashSet::new();
+    for x in 0..w {
+        for y in 0..h {
+            let mut p = page.clone();
+            catch(|| p.set_pixel(x, y, true)).map_err(|e| format!("set_pixel({x},{y}) on {w}x{h} panicked: {e}"))?;
+            st.eval();
+            let got = p.as_bytes();
+            let (bi, bit) = bit_pos(x, y, h);
+            if got.len() != want.len() {
+                return Err(format!("set_pixel({x},{y}) changed the length of a {w}x{h} page"));
+            }
+            let mut diffs: Vec<(usize, u8)> = vec![];
+            for k in 0..want.len() {
+                if got[k] != want[k] {
+                    diffs.push((k, got[k] ^ want[k]));
+                }
+            }
+            if diffs != vec![(bi, 1u8 << bit)] {
+                return Err(format!(
+                    "on a blank {w}x{h} page set_pixel({x},{y}) changed (byte, xor-mask) {diffs:?}; the layout puts the pixel at byte {bi} bit {bit}"
+                ));
+            }
+            if !seen_bits.insert((bi, bit)) {
+                return Err(format!("two pixels of a {w}x{h} page share byte {bi} bit {bit}"));
+            }
+        }
+    }
+    // from_bytes over candidate lengths
+    let total = total_len(w, h);
+    let mut lens = vec![0usize, total.saturating_sub(16), total - 1, total, total + 1, total + 16, data_len(w, h), 4];
+    lens.sort();
+    lens.dedup();
+    for len in lens {
+        let buf: Vec<u8> = (0..len).map(|i| h64(&(w, h, i as u64)) as u8).collect();
+        for owned in [true, false] {
+            let r = if owned {
+                catch(|| Page::from_bytes(w, h, buf.clone()).map(|p| (p.as_bytes().to_vec(), p.width(), p.height(), p.id())))
+            } else {
+                catch(|| Page::from_bytes(w, h, &buf[..]).map(|p| (p.as_bytes().to_vec(), p.width(), p.height(), p.id())))
+            }
+            .map_err(|p| format!("from_bytes({w},{h},{len} bytes) panicked: {p}"))?;
+            st.eval();
+            match (len == total, r) {
+                (true, Ok((bytes, pw, ph, id))) => {
+                    if bytes != buf {
+                        return Err(format!("from_bytes({w},{h}) does not expose exactly the bytes given"));
+                    }
+                    if pw != w || ph != h || id != PageId(buf[0]) {
+                        return Err(format!("from_bytes({w},{h}) reports other dimensions or id"));
+                    }
+                }
+                (true, Err(e)) => return Err(format!("from_bytes({w},{h}) rejected the padded length {len}: {e}")),
+                (false, Ok(_)) => {
+                    return Err(format!(
+                        "from_bytes({w},{h}) accepted {len} bytes although the padded size is {total}"
+                    ))
+                }
+                (false, Err(_)) => {}
+            }
+        }
+    }
+    // a page equals the page rebuilt from its bytes
+    let rebuilt = catch(|| Page::from_bytes(w, h, page.as_bytes().to_vec()))
+        .map_err(|p| format!("from_bytes panicked on a page's own bytes: {p}"))?
+        .map_err(|e| format!("from_bytes rejects the bytes of Page::new({w},{h}): {e}"))?;
+    if rebuilt != page {
+        return Err(format!("from_bytes({w},{h}, p.as_bytes()) != p for a new page"));
+    }
+    if nontrivial_size(w, h) {
+        st.class("nontrivial-size");
+    }
+    if st.want_sample() && nontrivial_size(w, h) && w > 2 {
+        st.sample(json!({"w": w, "h": h, "id": c.id, "bytes_per_column": bpc(h), "data_bytes": data_len(w, h), "total_bytes": total, "pixels_checked": w * h}));
+    }
+    Ok(())
+}
+
+#[derive(Serialize, Deserialize, Debug, Clone, PartialEq, Eq, Hash)]
+pub struct EditedCase {
+    pub w: u32,
+    pub h: u32,
+    pub seed: u64,
+    /// pixels to set, as selectors mapped into the page
+    pub sets: Vec<(u16, u16, bool)>,
+}
+
+/// generated content: bytes -> page -> edits -> bytes -> page; layout of every touched pixel
+pub fn check_edited(c: &EditedCase, st: &mut Stats) -> Result<(), String> {
+    let (w, h) = (c.w, c.h);
+    let total = total_len(w, h);
+    let buf: Vec<u8> = (0..total).map(|i| h64(&(c.seed, i as u64)) as u8).collect();
+    let mut page = catch(|| Page::from_bytes(w, h, &buf[..]))
+        .map_err(|p| format!("from_bytes panicked: {p}"))?
+        .map_err(|e| format!("from_bytes({w},{h}) rejected {total} bytes: {e}"))?;
+    st.eval();
+    if page.as_bytes() != &buf[..] {
+        return Err("from_bytes does not expose exactly the bytes given".into());
+    }
+    let mut model = buf.clone();
+    if w > 0 && h > 0 {
+        for &(sx, sy, v) in &c.sets {
+            let x = crate::engine::pick_idx(sx, w as usize) as u32;
+            let y = crate::engine::pick_idx(sy, h as usize) as u32;
+            let (bi, bit) = bit_pos(x, y, h);
+            // the pixel must read what the layout says is stored there
+            let got = catch(|| page.get_pixel(x, y)).map_err(|p| format!("get_pixel({x},{y}) panicked: {p}"))?;
+            if got != (model[bi] & (1 << bit) != 0) {
+                return Err(format!("get_pixel({x},{y}) on {w}x{h} = {got}, but byte {bi} bit {bit} of the page bytes says otherwise"));
+            }
+            catch(|| page.set_pixel(x, y, v)).map_err(|p| format!("set_pixel({x},{y}) panicked: {p}"))?;
+            if v {
+                model[bi] |= 1 << bit;
+            } else {
+                model[bi] &= !(1 << bit);
+            }
+            st.eval();
+            if page.as_bytes() != &model[..] {
+                return Err(format!(
+                    "after set_pixel({x},{y},{v}) on a {w}x{h} page the bytes differ from the layout's prediction (byte {bi} bit {bit})"
+                ));
+            }
+        }
+    }
+    let rebuilt = catch(|| Page::from_bytes(w, h, page.as_bytes().to_vec()))
+        .map_err(|p| format!("from_bytes panicked on a page's own bytes: {p}"))?
+        .map_err(|e| format!("from_bytes rejects a page's own bytes: {e}"))?;
+    if rebuilt != page || rebuilt.as_bytes() != page.as_bytes() {
+        return Err(format!("from_bytes({w},{h}, p.as_bytes()) != p after edits"));
+    }
+    if nontrivial_size(w, h) {
+        st.nontrivial(h64(c));
+    }
+    Ok(())
+}
+
+pub fn run(ctx: &Ctx) {
+    let (bw, bh) = ctx.tier.pick((32u32, 34u32), (64u32, 48u32));
+    par_range(ctx, "box", ((bw + 1) * (bh + 1)) as u64, |i, st| {
+        let w = i as u32 / (bh + 1);
+        let h = i as u32 % (bh + 1);
+        for id in [0u8, 1, 0x10, 0xFF, (w * 3 + h) as u8] {
+            let c = SizeCase { w, h, id };
+            check_size(&c, st).map_err(|m| (serde_json::to_value(&c).unwrap(), m))?;
+        }
+        if nontrivial_size(w, h) {
+            st.nontrivial_enumerated(1);
+        }
+        Ok(())
+    });
+    ctx.part_done("box", true, json!({"box": [bw, bh], "ids": 5, "what": "new-page bytes, every pixel's bit, from_bytes length candidates"}));
+
+    let mut sizes: Vec<(u32, u32)> = REAL_SIZES.to_vec();
+    sizes.extend_from_slice(&[(1, 255), (255, 1), (300, 9), (1000, 64), (0, 0), (7, 0), (0, 7)]);
+    par_range(ctx, "real-and-large-sizes", sizes.len() as u64, |i, st| {
+        let (w, h) = sizes[i as usize];
+        let c = SizeCase { w, h, id: 0xA5 };
+        check_size(&c, st).map_err(|m| (serde_json::to_value(&c).unwrap(), m))?;
+        if nontrivial_size(w, h) {
+            st.nontrivial_enumerated(1);
+        }
+        Ok(())
+    });
+    ctx.part_done("real-and-large-sizes", true, json!("11 real sizes, 4 large sizes, 3 degenerate sizes"));
+
+    // all ids on three sizes
+    par_range(ctx, "all-ids", 256, |id, st| {
+        for (w, h) in [(30u32, 10u32), (90, 7), (3, 17)] {
+            let want = new_bytes(id as u8, w, h);
+            let p = catch(|| Page::new(PageId(id as u8), w, h)).map_err(|e| (json!({"w": w, "h": h, "id": id}), format!("Page::new panicked: {e}")))?;
+            st.eval();
+            if p.as_bytes() != &want[..] || p.id() != PageId(id as u8) {
+                return Err((json!({"w": w, "h": h, "id": id}), format!("Page::new({id},{w},{h}) bytes differ from the layout")));
+            }
+        }
+        Ok(())
+    });
+    ctx.part_done("all-ids", true, json!("ids 0..=255 x 3 sizes"));
+
+    run_generated(
+        ctx,
+        "edited",
+        ctx.tier.pick(200_000, 3_000_000),
+        move || {
+            (
+                prop_oneof![
+                    10 => (0..=bw, 0..=bh),
+                    4 => proptest::sample::select(REAL_SIZES.to_vec()),
+                    1 => proptest::sample::select(vec![(1u32, 255u32), (255, 1), (300, 9), (1000, 64)]),
+                ],
+                any::<u64>(),
+                proptest::collection::vec((any::<u16>(), any::<u16>(), any::<bool>()), 0..30),
+            )
+                .prop_map(|((w, h), seed, sets)| EditedCase { w, h, seed, sets })
+        },
+        |c, st| check_edited(c, st),
+    );
+}
+
+pub fn replay(part: &str, case: &Value) -> Result<(), String> {
+    let mut st = Stats::new();
+    if part == "edited" {
+        let c: EditedCase = serde_json::from_value(case.clone()).map_err(|e| format!("bad case: {e}"))?;
+        return check_edited(&c, &mut st);
+    }
+    let c: SizeCase = serde_json::from_value(case.clone()).map_err(|e| format!("bad case: {e}"))?;
+    check_size(&c, &mut st)
+}
